@@ -1,6 +1,6 @@
 //go:build verif
 
-package fanoutconsumer
+package VERIFPKG
 
 // C06 — fan-out never lets one consumer's mutation reach another consumer.
 // Engine E2: all consumer vectors of length 1-4 over {read-only, mutating synchronously, mutating asynchronously after
@@ -111,7 +111,7 @@ var c06Logs = &c06Signal{Name: "logs", Run: func(recs []*c06Rec, ro bool) (strin
 	if ro {
 		in.MarkReadOnly()
 	}
-	fo := NewLogs(cons)
+	fo := c06MkLogs(cons) // the fan-out consumer itself, or the same vector selected through a connector router (see c06_mk_*)
 	err := fo.ConsumeLogs(context.Background(), in)
 	return sent, err, fo.Capabilities(), obs(in)
 }}
@@ -148,7 +148,7 @@ var c06Traces = &c06Signal{Name: "traces", Run: func(recs []*c06Rec, ro bool) (s
 	if ro {
 		in.MarkReadOnly()
 	}
-	fo := NewTraces(cons)
+	fo := c06MkTraces(cons) // the fan-out consumer itself, or the same vector selected through a connector router (see c06_mk_*)
 	err := fo.ConsumeTraces(context.Background(), in)
 	return sent, err, fo.Capabilities(), obs(in)
 }}
@@ -188,7 +188,7 @@ var c06Metrics = &c06Signal{Name: "metrics", Run: func(recs []*c06Rec, ro bool) 
 	if ro {
 		in.MarkReadOnly()
 	}
-	fo := NewMetrics(cons)
+	fo := c06MkMetrics(cons) // the fan-out consumer itself, or the same vector selected through a connector router (see c06_mk_*)
 	err := fo.ConsumeMetrics(context.Background(), in)
 	return sent, err, fo.Capabilities(), obs(in)
 }}
@@ -225,7 +225,7 @@ var c06Profiles = &c06Signal{Name: "profiles", Run: func(recs []*c06Rec, ro bool
 	if ro {
 		in.MarkReadOnly()
 	}
-	fo := NewProfiles(cons)
+	fo := c06MkProfiles(cons) // the fan-out consumer itself, or the same vector selected through a connector router (see c06_mk_*)
 	err := fo.ConsumeProfiles(context.Background(), in)
 	return sent, err, fo.Capabilities(), obs(in)
 }}
@@ -314,7 +314,7 @@ func c06Run(sig *c06Signal, c c06Case) (string, string) {
 }
 
 func TestVerif(t *testing.T) {
-	ctx := vr.Start("C06", "fanout")
+	ctx := vr.Start("C06", c06Unit)
 	if ctx == nil {
 		t.Skip("not driven")
 	}
